@@ -85,8 +85,12 @@ def check_C03(F, tier, t0):
     # language level: every spelling of the connectives, the token -> operator table of the parser, the evaluator's dispatch
     guarded(R, 'T tokens', engine_t.rule_tokens, F, R, {'And', 'Or', 'Xor', 'Not', 'Nor', 'Nand', 'Implies', 'ImpliesInv', 'Iff', 'If', 'Then', 'Else'})
     guarded(R, 'T binary operators', engine_t.rule_operator_tables, F, R, ('binop',))
+    for _cons in ('BinaryOp', 'Not', 'Ite'):
+        guarded(R, 'A3 (%s constructor)' % _cons, a3_filtered, F, R, _cons, 'A3:connective-constructors')
+    guarded(R, 'A2 (connective syntax)', a2_filtered, F, R, ('If', 'Not', '<simple>', 'OpenParen'), 'A2:connective-syntax')
     guarded(R, 'S eval_recursive (connective arms)', arm_obligations, R, E, EVF, ('BinaryOp', 'Not', 'Ite', 'Const'), 'evaluator-connective-obligations')
     R.floor('functions', 10); R.floor('worlds', 12); R.floor('mk_choice-call-sites', 4); R.floor('T:binary-operator-rows', 8); R.floor('evaluator-connective-obligations', 4)
+    guarded(R, 'X5', engine_x.rule_X5, F, R)      # distinct names are distinct symbols
     return finish(R, 'proof', tier, t0,
         'Inductive proof, by exhaustive enumeration of abstract worlds (leaf/choice shape of each operand, total pre-order of the compared symbols) of each '
         'function body taken from type-checked THIR, that and/or/not/implies/ite/eq/xor/nor/nand/var return the specified pointwise truth function for ALL operand '
@@ -104,9 +108,11 @@ def check_C04(F, tier, t0):
     # language level: the four quantifier keywords, the parser's Quantifier constructor, the evaluator's and the substitution's Quantifier arm
     guarded(R, 'T tokens', engine_t.rule_tokens, F, R, {'Exists', 'Forall'})
     guarded(R, 'A3 (Quantifier constructor)', a3_filtered, F, R, 'Quantifier', 'A3:quantifier-constructor')
+    guarded(R, 'A2 (quantifier syntax)', a2_filtered, F, R, ('Exists', 'Forall'), 'A2:quantifier-syntax')
     guarded(R, 'S eval_recursive (Quantifier arm)', arm_obligations, R, E, EVF, ('Quantifier',), 'evaluator-quantifier-obligations')
     guarded(R, 'S replace_var (Quantifier arm)', arm_obligations, R, E, RVF, ('Quantifier',), 'substitution-quantifier-obligations')
     R.floor('functions', 3); R.floor('worlds', 3); R.floor('mk_choice-call-sites', 1); R.floor('T:keyword-spellings', 4); R.floor('evaluator-quantifier-obligations', 1)
+    guarded(R, 'X5', engine_x.rule_X5, F, R)      # distinct names are distinct symbols
     return finish(R, 'proof', tier, t0,
         'exists_impl(s,b) = b|s=1 or b|s=0 proved by structural induction in the cofactor-pair domain (every atom is the pair of its two cofactors; children of an '
         'ordered node testing s are independent of s); s is not in the support of the result and support(result) is within support(b); exists(V,b) is exactly the fold of '
@@ -122,6 +128,8 @@ def check_C20(F, tier, t0):
     run_S(R, E, fns)
     guarded(R, 'S helper predicates', run_S, R, E, spec_bdd.HELPER_FNS, spec_bdd.B, False)
     guarded(R, 'X4 retain', engine_x.rule_X4, F, R, ('retain',))
+    guarded(R, 'T filter spellings', engine_t.rule_tte, F, R)       # the value of -c is parsed by the same FromStr
+    guarded(R, 'E1', engine_e.rule_E1, F, R)                        # every rebuilt node goes through mk_choice (reduced, shared)
     R.count('mk_choice-call-sites', static_mk_choice_sites(F.lib(), fns))
     R.floor('functions', 1); R.floor('worlds', 8); R.floor('mk_choice-call-sites', 1)
     return finish(R, 'proof', tier, t0,
@@ -234,6 +242,20 @@ def a3_filtered(F, R, needle, counter):
     R.obligations += 1; R.discharged += 0 if hits else 1
     R.count(counter, 1)
 
+def a2_filtered(F, R, tokens, counter):
+    """grammar equivalence (A2) restricted to differences whose shortest distinguishing prefix starts with one of `tokens`"""
+    sub = Report('A2')
+    engine_a.rule_A2(F, sub)
+    hits = []
+    for v in sub.violations:
+        if v.rule == 'UNDECIDABLE': hits.append(v); continue
+        m = __import__('re').search(r'prefix: \[([^\]]*)\]', v.msg)
+        first = m.group(1).split()[0] if m and m.group(1).split() else ''
+        if first in tokens: hits.append(v)
+    for v in hits: R.violation(v.key, v.rule, v.msg, v.loc, v.detail)
+    R.obligations += 1; R.discharged += 0 if hits else 1
+    R.count(counter, 1)
+
 def check_C05(F, tier, t0):
     R = Report('C05')
     E = make_engine(F)
@@ -254,9 +276,21 @@ def check_C05(F, tier, t0):
         R.count('evaluator-counting-obligations', n)
     guarded(R, 'S eval_recursive (counting arms)', lang)
     guarded(R, 'S replace_var (counting arms)', arm_obligations, R, E, RVF, ('CountableConst', 'CountableVariable'), 'substitution-counting-obligations')
+    def no_overflow_in_evaluator():
+        # the proofs above treat the offsets n-1 / n+1 of the strict comparisons as integers; that is only right if the machine arithmetic cannot
+        # overflow for any constant the syntax accepts (saturating or clamped arithmetic): no overflow-capable site in the evaluator
+        lib = F.lib()
+        reach = {n: (lib, b) for n, b in lib.mir.items() if n.split('::{closure')[0] == EVF}
+        sites = [s_ for s_ in engine_p.inventory(F, reach) if s_.what.startswith(('Overflow', 'DivisionByZero', 'RemainderByZero'))]
+        R.count('evaluator-arithmetic-sites-checked', len(reach))
+        R.obligation(not sites, 'C05 evaluator arithmetic')
+        for s_ in sites:
+            R.violation('%s / P / %s on the comparison constant' % (s_.fn, s_.what), 'P', 'the evaluator computes on the comparison constant with %s: for a constant near the integer limits the offset of a strict comparison overflows (panic in debug, a wrapped bound in release)' % s_.what, s_.loc)
+    guarded(R, 'P evaluator arithmetic', no_overflow_in_evaluator)
     guarded(R, 'T counting operators', engine_t.rule_operator_tables, F, R, ('countop',))
     guarded(R, 'T tokens', engine_t.rule_tokens, F, R, {'Eq', 'ImpliesInv', 'Geq', 'Lt', 'Gt'})
     R.floor('functions', 12); R.floor('evaluator-counting-obligations', 5); R.floor('T:counting-operator-rows', 5)
+    guarded(R, 'X5', engine_x.rule_X5, F, R)      # distinct names are distinct symbols
     return finish(R, 'proof', tier, t0,
         'Inductive proof (list induction, linear-integer normal forms decided exactly per linear form) that cmp_count(bs,n,cmp) = cmp(n - #true(bs)), aln/amn/exn = '
         '[#true >= / <= / = n], cmp_count_compare(a,b,n,cmp) = cmp(b, n + #true(a)) and the five list-versus-list comparisons, for arbitrary operand functions, repeated '
@@ -295,6 +329,7 @@ def check_C06(F, tier, t0):
         R.count('A3:fixed-point-constructor-paths', 2)
     guarded(R, 'A3 (FixedPoint constructor)', a3_fixed_point)
     R.floor('functions', 2); R.floor('evaluator-fixed-point-obligations', 4); R.floor('T:fixed-point-rows', 2)
+    guarded(R, 'X5', engine_x.rule_X5, F, R)      # distinct names are distinct symbols
     return finish(R, 'other', tier, t0,
         'Decides the code-dependent premises of Kleene iteration: (a) fp\'s loop, by one symbolic iteration from an arbitrary state: the state starts as the argument, the '
         'loop exits only when t(s) is structurally s, otherwise the next state is t(s), and the value returned is the state t maps to itself; (b) gfp/nu start from true, '
@@ -556,6 +591,8 @@ def check_C14(F, tier, t0):
     guarded(R, 'X6', engine_x.rule_X6, F, R)
     guarded(R, 'X4 dot filter', engine_x.rule_X4, F, R, ('dotfilter',))
     guarded(R, 'X7', engine_x.rule_X7, F, R)
+    guarded(R, 'X8', engine_x.rule_X8, F, R, 'rsbdd', 'executable')
+    guarded(R, 'T filter spellings', engine_t.rule_tte, F, R)
     R.floor('X1:edge-tuples', 2); R.floor('X2:dot-leaf-cases', 6); R.floor('X2:dot-edge-cases', 18); R.floor('X6:variants', 12); R.floor('X6:recursive-fields', 11)
     return finish(R, 'other', tier, t0,
         'Sibling-agreement clauses: T/F edge flags and labels follow the true/false branch; leaf ids and labels sit on the matching variants; for every filter x child kind an '
@@ -571,6 +608,8 @@ def check_C15(F, tier, t0):
     import engine_n
     guarded(R, 'L-W', engine_l.rule_width, F, R, 'n_queens_gen')
     guarded(R, 'N', engine_n.rule_queens, F, R)
+    guarded(R, 'X8', engine_x.rule_X8, F, R, 'n_queens_gen')
+    front_end(R, F)       # the emitted text means what the language's tokenizer and operator tables say it means
     R.floor('L-W:arithmetic-sites', 6); R.floor('L-W:ranges', 4); R.floor('N:loop-nests', 6); R.floor('N:proved-lines', 6); R.floor('N:families', 4)
     return finish(R, 'proof', tier, t0,
         'Affine loop-nest analysis, symbolic in n (nothing is instantiated): each of the constraint loops is read from THIR as `for i in a..b { [ for j in c..d { v_E(i,j,n), } ] OP 1 }`; '
@@ -585,6 +624,8 @@ def check_C16(F, tier, t0):
     R = Report('C16')
     guarded(R, 'L', engine_l.rule_max_clique, F, R)
     guarded(R, 'L templates', engine_l.rule_max_clique_templates, F, R)
+    guarded(R, 'X8', engine_x.rule_X8, F, R, 'max_clique_gen')
+    front_end(R, F)       # the emitted text means what the language's tokenizer and operator tables say it means
     R.floor('L:complement-push-sites', 1); R.floor('L:truth-table-rows', 16); R.floor('L:vertex-list-uses', 3); R.floor('L:template-skeleton-pieces', 6)
     return finish(R, 'other', tier, t0,
         'Clauses: the complement-edge guard as a truth table over {v1==v2, -u, E(v1,v2), E(v2,v1), already-emitted(v2,v1)} equals the specification (directed: constrained '
@@ -599,6 +640,7 @@ def check_C18(F, tier, t0):
     guarded(R, 'L', engine_l.rule_random_graph, F, R)
     guarded(R, 'L writers', engine_l.rule_graph_writers, F, R)
     guarded(R, 'L colours', engine_l.rule_colour_vertices, F, R)
+    guarded(R, 'X8', engine_x.rule_X8, F, R, 'random_graph_gen')
     R.floor('L:refuse-not-truncate', 1); R.floor('L:candidate-push-sites', 1); R.floor('L:complete-count', 1); R.floor('L:truth-table-rows', 22); R.floor('L:edge-writer-sites', 3)
     return finish(R, 'other', tier, t0,
         'Clauses: generate_graph returns Ok only with the checked slice candidates[0..E] and Err otherwise (refuse, never truncate; exactly E edges by the slice contract); '
@@ -644,6 +686,8 @@ def check_C17(F, tier, t0):
     R = Report('C17')
     import engine_u
     guarded(R, 'U', engine_u.rule_sudoku, F, R)
+    guarded(R, 'X8', engine_x.rule_X8, F, R, 'sudoku_gen')
+    front_end(R, F)       # the emitted text means what the language's tokenizer and operator tables say it means
     guarded(R, 'L-W', engine_l.rule_width, F, R, 'sudoku_gen')
     R.floor('U:list-emissions', 4); R.floor('U:proved-families', 4); R.floor('U:families-required', 4); R.floor('U:hint-rule', 1); R.floor('U:whitespace-filter', 1)
     return finish(R, 'proof', tier, t0,
